@@ -12,12 +12,12 @@ import random
 from harness import core, sexp
 
 PATTERNS = ['/a', '/a/', '/a/<x>', '/a/<x:int>', '/<y>', '/<y>/', '/a/b', '/<p*>', '/b/<q+>/', '/c/<z?>',
-            '/a/<x>/c', '/', '/n/<ns+int>', '/a/<f:float>']
+            '/a/<x>/c', '/', '/n/<ns+int>', '/a/<f:float>', '/k/<code:int>', '/k/<detail>', '/k/<mimetype>/<is_breaking>']
 PATHS = ['/', '/a', '/a/', '/a//', '/a/1', '/a/b', '/a/b/', '/a/x/c', '/b', '/b/1/2', '/b/1/2/', '/b//1/', '/c',
          '/c/', '/c/z', '/zz', '/zz/', '/a/1/', '//a', '/A', '/a/1x',
          # segments the lexical regexes of int/float admit but the conversion rejects (sign, blank, digits; an empty
          # segment inside a typed multi binding): no match, never an exception
-         '/a/+ 1', '/a/- .5', '/n/1//2', '/n/3/4']
+         '/a/+ 1', '/a/- .5', '/n/1//2', '/n/3/4', '/k/404', '/k/200', '/k/abc', '/k/text/0']
 REQ_METHODS = ['GET', 'GET', 'HEAD', 'POST', 'PUT', 'get', 'FOO', 'DELETE', 'post']
 METHOD_SETS = [None, None, ['GET'], ['POST'], ['get', 'put'], ['POST', 'DELETE'], ['HEAD'], [], ['GET', 'POST']]
 BEHAVIOURS = ['ok', 'ok', 'ok', 'ctx', 'nonresp', 'none', 'raise404nb', 'ret403nb', 'raise409', 'ret503',
@@ -132,6 +132,14 @@ def build(case):
             def render_error(request, _error):
                 raise KeyError('route renderer broken')
             return render_error
+        if kind == 'raises_http':
+            def render_error(request, _error):
+                raise E.ServiceUnavailable('renderer gave up')      # a failing renderer is a failing renderer, whatever it raises
+            return render_error
+        if kind == 'reraises':
+            def render_error(request, _error):
+                raise _error
+            return render_error
         if kind == 'other':
             def render_error(request, _error):
                 return Response('other', status=299, headers={'X-Other': 'R%d' % k})
@@ -228,7 +236,8 @@ def impl(case):
 def route_sx(case, k):
     r = case['routes'][k]
     own = r.get('own_rerr')
-    rerr = (['other', 'R%d' % k] if own == 'other' else own) if own else HANDLERS[case['handler']][1]
+    rerr = (['other', 'R%d' % k] if own == 'other' else 'raises' if own in ('raises_http', 'reraises') else own) if own else \
+        HANDLERS[case['handler']][1]
     mode = r.get('route_mode') or case['app_mode']
     return ['F', sexp.some(r['methods']), r['pattern'], mode, OUT[r['beh']], rerr]
 
@@ -376,7 +385,7 @@ def gen_case(rng, tier, exhaustive=None):
     n = rng.choice([1, 2, 2, 3, 3, 4])
     routes = []
     for _ in range(n):
-        own = rng.choice([None, None, None, 'adapt', 'raises', 'other', 'notcallable'])
+        own = rng.choice([None, None, None, 'adapt', 'raises', 'raises_http', 'reraises', 'other', 'notcallable'])
         routes.append({'pattern': rng.choice(PATTERNS), 'methods': rng.choice(METHOD_SETS),
                        'beh': rng.choice(BEHAVIOURS), 'own_rerr': own,
                        'route_mode': rng.choice([None, None, None, 'strict', 'redirect', 'rewrite'])})
@@ -409,6 +418,14 @@ def small_tables():
             if (i * 7 + j) % 5 == 0:
                 out.append({'lab': 'dispatch', 'app_mode': 'redirect' if (i + j) % 3 else 'strict', 'handler': 'default',
                             'routes': [dict(a), dict(b)], 'build': None, 'requests': reqs})
+    # three (and four) routes for one path that all back out softly: the MOST RECENT error answers, whatever came before
+    soft = ['ret403nb', 'raise404nb', 'raise500nb', 'ret404nb']
+    import itertools
+    for combo in list(itertools.product(soft, repeat=3)) + [('ret403nb', 'raise404nb', 'ret403nb', 'raise404nb')]:
+        for pat in ('/a', '/a/<x>'):
+            out.append({'lab': 'dispatch', 'app_mode': 'redirect', 'handler': 'default', 'build': None,
+                        'routes': [{'pattern': pat, 'methods': None, 'beh': b, 'own_rerr': None, 'route_mode': None} for b in combo],
+                        'requests': [['GET', '/a', None], ['POST', '/a/1', 'application/json'], ['GET', '/a', 'text/html']]})
     return out
 
 
